@@ -150,6 +150,14 @@ func c03Value(cs *core.Case, p rtcp.Packet, where string) {
 	}
 }
 
+// cap14 is the number of statuses a vector chunk covers on the wire: 14 one-bit or 7 two-bit symbols.
+func cap14(v *rtcp.StatusVectorChunk) int {
+	if v.SymbolSize == 1 {
+		return 7
+	}
+	return 14
+}
+
 // fieldIsSLI reports whether the header field named f belongs to an SLI (directly or as a
 // compound member).
 func fieldIsSLI(p rtcp.Packet, f string) bool {
@@ -365,6 +373,44 @@ func runC03(c *core.Ctx) {
 	o := gen.Opts{AllowKF: true}
 	c.Section("values", c.N(1200000, 48000000), func(cs *core.Case) {
 		c03Value(cs, valueOf(cs, o), "value")
+	})
+	// transport-cc values whose vector chunks carry only as many symbols as statuses remain (a list
+	// shorter than the chunk can hold): the word is the symbols left-aligned and zero-filled
+	c.Section("twcc-short-vectors", c.N(40000, 2000000), func(cs *core.Case) {
+		r := cs.R
+		t, m := gen.TWCCValue(r, gen.Opts{Small: true, NoBig: true})
+		covered := 0
+		trimmed := false
+		for _, ch := range t.PacketChunks {
+			switch v := ch.(type) {
+			case *rtcp.RunLengthChunk:
+				covered += int(v.RunLength)
+			case *rtcp.StatusVectorChunk:
+				left := len(m.Status) - covered
+				if left < 0 {
+					left = 0
+				}
+				if left < len(v.SymbolList) {
+					v.SymbolList = v.SymbolList[:left:left]
+					trimmed = true
+				} else if r.Chance(1, 6) && len(v.SymbolList) > 1 {
+					// trailing not-received statuses of any vector need not be listed either
+					k := len(v.SymbolList)
+					for k > 0 && v.SymbolList[k-1] == 0 {
+						k--
+					}
+					if k < len(v.SymbolList) && covered+len(v.SymbolList) >= len(m.Status) {
+						v.SymbolList = v.SymbolList[:k:k]
+						trimmed = true
+					}
+				}
+				covered += cap14(v)
+			}
+		}
+		if trimmed {
+			cs.Count("twcc-short-vectors/trimmed")
+		}
+		c03Value(cs, t, "twcc-short-vectors")
 	})
 	// values whose encoding has 64 KiB or more (where 16-bit byte arithmetic wraps)
 	c.Section("big-values", c.N(400, 8000), func(cs *core.Case) {
